@@ -27,6 +27,14 @@
 // Each expression is processed in a forked child so that a crash or an endless loop of the real code is
 // observed instead of killing the harness.
 //
+// The model prints the same lines with these differences (see /verif/sim/diff_expr.py):
+//   parse err:hang / parse err:crash      where the real parser hangs / dies        (harness: `hang`, `crash 6`)
+//   type err:crash                         where toC() dereferences NULL              (harness: `crash 11`)
+//   value err:<kind>                       div0 | opaque | random | range: no rational value (model abstains)
+//   compiled <c0> <c1> ...                 per component a rational or err:<kind>; err:int-trunc = the C text
+//                                          performs a truncating int/int division, err:int-div0 = int/int by 0
+//   selfcheck abs-mismatch                 (never printed) parseC(render e) differs from abs e
+//
 // build: /verif/harness/build_harness.sh /verif/harness/h_parser.cpp /verif/.work/bin/h_parser
 
 #include <algorithm>
